@@ -46,6 +46,7 @@ let variant = ref repaired
 let um_set0 = ref true
 let uw_canon = ref true
 let fspec = ref false
+let keep_label = ref true
 let rec emit_ms m s = match m, s with
   | [], _ -> ()
   | x :: m', [] -> zline "M" x; print_string "S -\n"; emit_ms m' []
@@ -64,12 +65,27 @@ let run_eq_case hd body =
   | ["EQ"; "DW"; _; n] -> let a = List.map parse_wop a and b = List.map parse_wop b in out (dw_eq_case !variant (ni n) a b) (w_eq_spec false (ni n) a b)
   | ["EQ"; "UW"; _; n] -> let a = List.map parse_wop a and b = List.map parse_wop b in out (uw_eq_case !variant !uw_canon (ni n) a b) (w_eq_spec true (ni n) a b)
   | _ -> failwith "bad EQ case"
+let parse_triple t = match t with [i; j; l] -> ((ni i, ni j), zi l) | _ -> failwith "bad triple"
+let run_conv_case hd body =
+  let opsof str = List.filter (fun t -> t <> []) (List.map toks (String.split_on_char ';' str)) in
+  let ops = opsof body in
+  match hd with
+  | ["CV"; "D"; lk; n] -> let hs = lk <> "none" in let o = List.map parse_dop ops in emit_ms (d_cv_case hs !variant (ni n) o) (d_cv_spec hs (ni n) o)
+  | ["CV"; "U"; lk; n] -> let hs = lk <> "none" in let o = List.map parse_uop ops in emit_ms (u_cv_case hs !variant !keep_label (ni n) o) (u_cv_spec hs (ni n) o)
+  | ["EL"; "D"; lk] -> let hs = lk <> "none" in let es = List.map parse_triple ops in emit_ms (d_el_case hs !variant es) (d_el_spec hs es)
+  | ["EL"; "U"; lk] -> let hs = lk <> "none" in let es = List.map parse_triple ops in emit_ms (u_el_case hs !variant es) (u_el_spec hs es)
+  | ["EL"; "DM"; _] -> let es = List.map parse_triple ops in emit_ms (dm_el_case !variant es) (m_el_spec false es)
+  | ["EL"; "UM"; _] -> let es = List.map parse_triple ops in emit_ms (um_el_case !variant es) (m_el_spec true es)
+  | ["EL"; "DW"; _] -> let es = List.map parse_triple ops in emit_ms (dw_el_case !variant es) (w_el_spec false es)
+  | ["EL"; "UW"; _] -> let es = List.map parse_triple ops in emit_ms (uw_el_case !variant es) (w_el_spec true es)
+  | _ -> failwith "bad CV/EL case"
 let run_case line =
   match String.index_opt line ':' with
   | None -> failwith ("bad case: " ^ line)
   | Some c ->
     let hd = toks (String.sub line 0 c) and body = String.sub line (c+1) (String.length line - c - 1) in
     if (match hd with "EQ" :: _ -> true | _ -> false) then run_eq_case hd body else
+    if (match hd with "CV" :: _ | "EL" :: _ -> true | _ -> false) then run_conv_case hd body else
     let ops = List.filter (fun t -> t <> []) (List.map toks (String.split_on_char ';' body)) in
     (match hd with
      | ["D"; lk; n] ->
@@ -84,7 +100,7 @@ let run_case line =
      | ["UW"; _; n] -> let ops = List.map (qwrap parse_wop) ops in emit_ms (uw_trace_z !variant !uw_canon (ni n) ops) (if !fspec then w_fspec_trace true (ni n) ops else w_spec_trace true (ni n) ops)
      | _ -> failwith ("unknown class in: " ^ line))
 let () =
-  Array.iter (fun a -> if a = "pinned" then (variant := pinned; um_set0 := false; uw_canon := false); if a = "fspec" then fspec := true) Sys.argv;
+  Array.iter (fun a -> if a = "pinned" then (variant := pinned; um_set0 := false; uw_canon := false); if a = "fspec" then fspec := true; if a = "nokeep" then keep_label := false) Sys.argv;
   (try while true do
      let line = input_line stdin in
      if String.length line > 5 && String.sub line 0 5 = "CASE " then begin
